@@ -308,6 +308,9 @@ def _mutate(res, how):
 
 def execute(desc):
   heapdict, = core.fresh_modules('heapdict')
+  Item.countdown = None       # nothing armed by an earlier run survives
+  Item.nest = None
+  Item.nested_fired = False
   ks = desc['ks']
   clients = desc['clients']
   heaps = [heapdict.HeapDict(k) for k in ks]
